@@ -222,6 +222,24 @@ def checkpoint_reload_invariant(c, geom):
     c.eq('reloaded_cached_likelihood_value_belongs_to_the_reloaded_state', float(t.current_likelihood_logd), ll(x), tol=1e-12)
 
 
+def langevin_noise_with_own_generator(c, name):
+    """the proposal mechanism the Metropolis ratio is computed for is x + (scale/2) grad + sqrt(scale) xi with xi a vector of INDEPENDENT standard normals -
+    also when the legacy sampler is given its own generator (rng=): started at the origin of N(0, I_3) (no drift there), the chain leaves the line
+    x_1 = x_2 = x_3 at once (a scalar draw broadcast over the components would keep it on that line for ever); bounded stand-in: native"""
+    import cuqi, io, contextlib
+    n = 3
+    tgt = cuqi.distribution.Gaussian(np.zeros(n), 1.0)
+    seed = int(c.real('seed', lo=0, hi=10 ** 6))
+    for kind, rng in (('global_generator', None), ('RandomState', np.random.RandomState(seed))):
+        np.random.seed(seed)
+        with contextlib.redirect_stdout(io.StringIO()), contextlib.redirect_stderr(io.StringIO()):
+            smp = getattr(cuqi.sampler, name)(tgt, scale=0.3, x0=np.zeros(n), **({'rng': rng} if rng is not None else {}))
+            ch = smp.sample(15).samples
+        spread = float(np.max(np.abs(ch - ch.mean(axis=0, keepdims=True))))
+        c.holds(f'{kind}:the_chain_moves', bool(np.any(ch != 0)))
+        c.holds(f'{kind}:noise_components_are_drawn_independently', spread > 1e-8, note=f"largest deviation of a state from the line x1=x2=x3: {spread:.3g}")
+
+
 def start_outside_the_support(c, iface, name):
     """'a proposal whose target log-density is NaN or minus infinity is never accepted' - also when the CURRENT state has density zero (a starting point outside
     the support: the log-ratio is then nan): the real samplers, started outside a bounded support with a step far too small to reach it, never move
@@ -573,6 +591,9 @@ def jobs(tier):
         for name in names:
             J.append(Job(f'{"experimental" if iface == "exp" else "legacy"}.{name}:start_outside_the_support', lambda c, i=iface, nm=name: start_outside_the_support(c, i, nm), 'B',
                          [f'{EXP if iface == "exp" else LEG}._{ {"MH": "mh", "CWMH": "cwmh", "PCN": "pcn", "pCN": "pcn", "MALA": "langevin_algorithm"}[name] }:{name}.{"step" if iface == "exp" and name != "MALA" else ("_accept_or_reject" if iface == "exp" else "single_update")}'], nnum=3))
+    for name in ('ULA', 'MALA'):
+        J.append(Job(f'legacy.{name}:proposal_noise_with_a_sampler_owned_generator', lambda c, nm=name: langevin_noise_with_own_generator(c, nm), 'B',
+                     [f'{LEG}._langevin_algorithm:{name}.single_update'], nnum=2))
     for geom in ('Continuous1D', 'Mapped'):
         J.append(Job(f'experimental.PCN:history:checkpoint_reload:prior_geometry={geom}', lambda c, g=geom: checkpoint_reload_invariant(c, g), 'B',
                      [EXP + '._sampler:Sampler.save_checkpoint', EXP + '._sampler:Sampler.load_checkpoint', EXP + '._pcn:PCN.step'], nnum=3))
